@@ -81,8 +81,9 @@ def bit (n i : Nat) : Bool := n / 2 ^ i % 2 == 1
 
 def U32 : Nat := 4294967296
 
-/-- `(pkt.GridSizeX + uint32(pkt.WorkgroupSizeX) - 1) / uint32(pkt.WorkgroupSizeX)` in `uint32` -/
-def wgCount (g w : Nat) : Nat := ((g % U32 + w % 65536 + U32 - 1) % U32) / (w % 65536)
+/-- `uint32((uint64(pkt.GridSizeX) + uint64(pkt.WorkgroupSizeX) - 1) / uint64(pkt.WorkgroupSizeX))`: the
+    ceiling division in 64 bits (before fix 60be3cc4 in `uint32`, where the sum wrapped) -/
+def wgCount (g w : Nat) : Nat := (g % U32 + w % 65536 - 1) / (w % 65536) % U32
 
 /-- the SGPR part of `initRegisters` / `initWfRegs`: `(SGPRPtr / 4, RegCount, value)` in code order -/
 def sgprInits (d : DispInfo) : List (Nat × Nat × Nat) :=
@@ -161,7 +162,8 @@ def initRegisters (t : TimingRF) (wi : Nat) (d : DispInfo) : TimingRF × Option 
 def dispatchWf (t : TimingRF) (wi simd soff voff : Nat) (d : DispInfo) : TimingRF × Option Fault :=
   (t.setWfInfo wi simd soff voff d).initRegisters wi d
 
-/-! ## timing: scalar loads return through the register file, not the accessor -/
+/-! ## timing: scalar loads return through the register accessor (before the repair: through the
+register file, at `insts.SReg(RegIndex() + k)`) -/
 
 /-- `Regs[S0 + RegType(index)]` for an `int` index: `RegIndex()` of a register that is neither `s`
     nor `v` is −1, and `S0 − 1 = V255` -/
@@ -170,11 +172,27 @@ def sregAt (idx : Int) : Nat := (Int.ofNat R_S0 + idx).toNat
 /-- `inst.Data.Register.RegIndex()` -/
 def regIndexInt (r : Nat) : Int := if isSReg r || isVReg r then Int.ofNat (regIndex r) else -1
 
-/-- one response of an `s_load_dword*`: `executeSMEMLoad` recorded the destination
-    `insts.SReg(RegIndex(data) + k)`, `k` = dwords before this cache-line piece;
-    `handleScalarDataLoadReturn` writes `len(data)/4` registers there with `SRegFile.Write` at the
-    wavefront's `SRegOffset` -/
+/-- `smemDstReg(data, k)`: the register that receives the dword `k` dwords into the loaded data:
+    `insts.SReg(data.RegIndex() + k)` for an SGPR, `insts.Regs[data.RegType + RegType(k)]` for any
+    other SDATA register (vcc_lo → vcc_hi, exec_lo → exec_hi) -/
+def smemDst (dataReg k : Nat) : Nat :=
+  if isSReg dataReg then sregAt (Int.ofNat (regIndex dataReg) + Int.ofNat k) else dataReg + k
+
+/-- one response of an `s_load_dword*` (repaired): `executeSMEMLoad` recorded the destination
+    `smemDstReg(inst.Data.Register, k)`, `k` = dwords before this cache-line piece;
+    `handleScalarDataLoadReturn` writes `len(data)/4` registers there through the wavefront's
+    register accessor (`wf.RegAccessor.WriteReg(dst, len/4, 0, wf.SRegOffset, data)`) — the path
+    `WriteOperandBytes` takes. A destination outside the register list is a nil `*Reg` (panic). -/
 def smemReturn (t : TimingRF) (wi dataReg k : Nat) (data : List UInt8) : TimingRF × Option Fault :=
+  let w := t.wfs.getD wi default
+  let dst := smemDst dataReg k
+  if !knownReg dst then (t, some .noreg) else
+  t.writeReg wi dst (data.length / 4) 0 w.soff data
+
+/-- the return path BEFORE the repair: destination `insts.SReg(RegIndex(data) + k)`, written with
+    `SRegFile.Write` at the wavefront's `SRegOffset` (not through the accessor): for SDATA = VCC / M0 /
+    EXEC … `RegIndex()` is −1 and the destination is `Regs[S0 − 1] = v255` -/
+def smemReturnOld (t : TimingRF) (wi dataReg k : Nat) (data : List UInt8) : TimingRF × Option Fault :=
   let w := t.wfs.getD wi default
   let dst := sregAt (regIndexInt dataReg + Int.ofNat k)
   if !knownReg dst then (t, some .noreg) else
